@@ -165,7 +165,8 @@ def boundary_rule(ctx, repo, dis):
     """C07.7 - at the top of memory the control-file decoder truncates an instruction exactly when the skool-file disassembler does."""
     ctx.rule('C07.7-boundary', 'opcodes.py and disassembler.py agree on instruction size at addresses 65530..65535 (no wrap): full size iff address + size <= 65536', floor=1700)
     from sa.core.pyfacts import ModFolder
-    mf = ModFolder(repo, 'opcodes')
+    from sa.core import tabfacts
+    oc = tabfacts.OpcodeTables(repo)
     full = dis.decode_all(())
     PFX = {'ops': [], 'after_CB': [0xCB], 'after_ED': [0xED], 'after_DD': [0xDD], 'after_FD': [0xFD], 'after_DDCB': [0xDD, 0xCB, 0], 'after_FDCB': [0xFD, 0xCB, 0]}
     disfn = dis.methods['disassemble']
@@ -182,20 +183,11 @@ def boundary_rule(ctx, repo, dis):
             name = ''.join('%02X' % x for x in seq)
             bad = None
             for address in range(65530, 65536):
-                mem = [0] * 65536
-                for i, x in enumerate(seq):
-                    if address + i < 65536:
-                        mem[address + i] = x
                 if address + len(seq) > 65536:
                     continue      # the opcode itself is cut off: both fall back to data by construction of their prefix tests
                 want = length if address + length <= 65536 else 65536 - address
                 try:
-                    v = mem[address]
-                    if v == 0xCB: r = mf.call('_after_cb', [mem, address + 1])
-                    elif v == 0xED: r = mf.call('_after_ed', [mem, address + 1])
-                    elif v in (0xDD, 0xFD): r = mf.call('_after_dd', [mem, address + 1, v])
-                    else: r = mf.call('_opcode', [mem, address, v])
-                    got = r[0]
+                    got = oc.size(fam, b, address)
                 except NotLiteral as e2:
                     ctx.limit(name, 'opcodes.py decoder not foldable: %s' % e2)
                     bad = 'limit'
